@@ -12,6 +12,7 @@ MODELS = {
     "MC_Decode": {"tla": "MC_Decode.tla", "cfg": "MC_Decode.cfg", "cfg_thorough": "MC_Decode_full.cfg"},
     "MC_Layout": {"tla": "MC_Layout.tla", "cfg": "MC_Layout.cfg", "cfg_thorough": "MC_Layout_full.cfg"},
     "MC_Link": {"tla": "MC_Link.tla", "cfg": "MC_Link.cfg", "cfg_thorough": "MC_Link_two.cfg"},
+    "MC_Bus2": {"tla": "MC_Bus2.tla", "cfg": "MC_Bus2.cfg"},
     "MC_LinkReassign": {"tla": "MC_Link.tla", "cfg": "MC_Link_reassign_nodup.cfg"},
     "MC_Endpoint": {"tla": "MC_Endpoint.tla", "cfg": "MC_Endpoint.cfg", "cfg_thorough": "MC_Endpoint_two.cfg"},
 }
@@ -44,10 +45,10 @@ P("C01", "model_checking",
   models=["MC_Codec"], families=["seed", "requests", "responses", "vendor", "lengths"])
 P("C02", "model_checking",
   "non-trivial = decode/process of a byte string whose last byte is not the PEC of the rest (every <=8-bit burst of every corpus packet, wrong PEC bytes, random strings); distinct = distinct (context, input bytes)",
-  models=["MC_Pec", "MC_Decode", "MC_Endpoint", "MC_Link"], gen_quick=["GenEndpoint", "GenLink"], gen_thorough=["GenEndpoint", "GenLinkTwo"], families=["bus", "corrupt"])
+  models=["MC_Pec", "MC_Decode", "MC_Endpoint", "MC_Link", "MC_Bus2"], gen_quick=["GenEndpoint", "GenLink"], gen_thorough=["GenEndpoint", "GenLinkTwo"], families=["bus", "corrupt"])
 P("C03", "model_checking",
   "non-trivial = an encoder call that returned Ok (PEC of the output recomputed by the spec); distinct = distinct encoder arguments",
-  models=["MC_Pec", "MC_Codec"], gen=["GenAlphabet"], families=["tour", "identity", "vendor_enum", "forge", "lengths", "requests", "responses", "vendor"])
+  models=["MC_Pec", "MC_Codec", "MC_Bus2"], gen=["GenAlphabet"], families=["tour", "identity", "vendor_enum", "forge", "lengths", "requests", "responses", "vendor"])
 P("C04", "model_checking",
   "non-trivial = an encoder call with 7-bit source/destination that returned Ok or whose message does not fit; distinct = distinct arguments",
   models=["MC_Codec", "MC_Link"], gen=["GenAlphabet"], families=["hdr_sweep", "tour", "identity", "vendor_enum", "forge", "lengths", "requests", "responses", "vendor"])
@@ -77,7 +78,7 @@ P("C12", "model_checking",
   models=["MC_Endpoint", "MC_Link"], gen_quick=["GenEndpoint", "GenEndpoint3", "GenEndpointSim", "GenLink"], gen_thorough=["GenEndpoint", "GenEndpoint3Full", "GenEndpointSim", "GenLinkTwo"], families=["bus", "forge", "vendor_enum", "identity", "history"])
 P("C13", "model_checking",
   "non-trivial = a processed Set/Get Endpoint ID packet (accepted, rejected or corrupted) or a direct accessor call; every event with a context is an evaluation of 'nothing else changes it'; distinct = distinct (context, input)",
-  models=["MC_Endpoint", "MC_Link", "MC_LinkReassign"], gen_quick=["GenAlphabet", "GenEndpoint", "GenEndpoint3", "GenEndpointSim", "GenLink"], gen_thorough=["GenAlphabet", "GenEndpoint", "GenEndpoint3Full", "GenEndpointSim", "GenLinkTwo"], families=["bus", "tour", "history", "forge", "corrupt"])
+  models=["MC_Endpoint", "MC_Link", "MC_LinkReassign", "MC_Bus2"], gen_quick=["GenAlphabet", "GenEndpoint", "GenEndpoint3", "GenEndpointSim", "GenLink"], gen_thorough=["GenAlphabet", "GenEndpoint", "GenEndpoint3Full", "GenEndpointSim", "GenLinkTwo"], families=["bus", "tour", "history", "forge", "corrupt"])
 P("C14", "model_checking",
   "non-trivial = process_packet on an accepted Get Vendor Defined Message Support request with selector < n; distinct = distinct (configuration, request)",
   models=["MC_Endpoint", "MC_Link"], gen_quick=["GenEndpoint", "GenEndpoint3", "GenEndpointSim", "GenLink"], gen_thorough=["GenEndpoint", "GenEndpoint3Full", "GenEndpointSim", "GenLinkTwo"], families=["bus", "vendor_enum", "forge"])
